@@ -19,7 +19,7 @@ structure InputSpec where
   ref  : Bytes
 deriving Repr, Inhabited
 
-inductive TK | set | sine | app | del | sum | max | min | ssumset | ssumsum
+inductive TK | set | sine | app | del | sum | max | min | ssumset | ssumsum | burst
 deriving DecidableEq, Repr, Inhabited
 
 structure OpTmpl where
@@ -85,7 +85,7 @@ def insSorted (k : Bytes) : List Bytes → List Bytes
 
 def keyUniverse (m : ModSpec) : List Bytes :=
   m.ops.foldl (fun acc o =>
-    if o.kind = .del then acc
+    if o.kind = .del ∨ o.kind = .burst then acc
     else if o.keyMod = 0 then insSorted o.keyBase acc
     else (List.range o.keyMod).foldl (fun acc i => insSorted (o.keyBase ++ renderNat i) acc) acc) []
 
@@ -176,23 +176,29 @@ def keysOfIndexOutput (out : Bytes) : List Bytes :=
     | _, _ => []
   go out.length out
 
+/-- how many keys a `burst` template writes in one block (more than the 32 deltas after which a recycled delta
+slice would matter) -/
+def burstN : Nat := 40
+
 def storeOps (m : ModSpec) (b : Nat) (extra : Int) : List Op :=
   if !acts b m.every m.rem then [] else
-  m.ops.filterMap fun o =>
-    if !acts b o.mod o.rem then none else
+  m.ops.flatMap fun o =>
+    if !acts b o.mod o.rem then [] else
     let key := if o.keyMod > 0 then o.keyBase ++ renderNat (b % o.keyMod) else o.keyBase
     let v : Int := o.valMul * b + o.valAdd + extra
     let txt := renderInt v
     match o.kind with
-    | .set => some ⟨.set, o.ord, key, txt⟩
-    | .sine => some ⟨.setIfNotExists, o.ord, key, txt⟩
-    | .app => some ⟨.append, o.ord, key, txt ++ [59]⟩
-    | .del => some ⟨.deletePrefix, o.ord, key, []⟩
-    | .sum => some ⟨.sum m.vt, o.ord, key, if m.vt = .bigdecimal then txt ++ str ".5" else txt⟩
-    | .max => some ⟨.max .int64, o.ord, key, txt⟩
-    | .min => some ⟨.min .int64, o.ord, key, txt⟩
-    | .ssumset => some ⟨.setSum .int64, o.ord, key, pfxSet ++ txt⟩
-    | .ssumsum => some ⟨.setSum .int64, o.ord, key, pfxSum ++ txt⟩
+    | .set => [⟨.set, o.ord, key, txt⟩]
+    | .sine => [⟨.setIfNotExists, o.ord, key, txt⟩]
+    | .app => [⟨.append, o.ord, key, txt ++ [59]⟩]
+    | .del => [⟨.deletePrefix, o.ord, key, []⟩]
+    | .sum => [⟨.sum m.vt, o.ord, key, if m.vt = .bigdecimal then txt ++ str ".5" else txt⟩]
+    | .max => [⟨.max .int64, o.ord, key, txt⟩]
+    | .min => [⟨.min .int64, o.ord, key, txt⟩]
+    | .ssumset => [⟨.setSum .int64, o.ord, key, pfxSet ++ txt⟩]
+    | .ssumsum => [⟨.setSum .int64, o.ord, key, pfxSum ++ txt⟩]
+    -- a block that writes many keys at once: key_0 … key_39 (set policy only)
+    | .burst => (List.range burstN).map fun i => ⟨.set, o.ord, key ++ [95] ++ renderNat i, renderInt (v + i)⟩
 
 structure BlockAcc where
   st     : LState
